@@ -38,8 +38,11 @@ Flow(s, k) == s.nodes[k].d + ChordOut(s, k)
               + LET Ch == Children(s, k) IN SumF([c \in Ch |-> Flow(s, c)], Ch)
 
 (* pressure drop in ubar of a branch carrying m *)
+(* a pump with the designed linear characteristic lift = N bar - zeta/10 bar per kg/s (never negative, none for reverse flow) *)
+PumpLift(N, zeta, m) == IF m < 0 THEN 0 ELSE LET l == N * 1000000 - zeta * 100000 * m IN IF l < 0 THEN 0 ELSE l
 Drop(kind, N, zeta, m) ==
     IF kind = "pipe" THEN 50 * m * Abs(m) * ((N \div 16) + zeta) + (N * m) \div 2
+    ELSE IF kind = "pump" THEN -PumpLift(N, zeta, m)
     ELSE 50 * m * Abs(m) * zeta                  \* valve, heat exchanger: lumped loss only
 
 Hydro(s, ha, hb) == (s.pamb[ha] - s.pamb[hb]) + 98100 * (s.hm[ha] - s.hm[hb])
